@@ -1,7 +1,7 @@
 /-
   C12 — a failed parse reports the farthest failure position and the exact expected set.
 -/
-import PigeonVerif.Properties.C11
+import PigeonVerif.Properties.C11Base
 import PigeonVerif.Properties.C01
 import PigeonVerif.Proofs.FailLog
 
